@@ -562,3 +562,59 @@ Proof.
 Qed.
 
 End AllNets.
+
+(** * Any number of consecutive claims
+
+    [sum_claims f s cuts e]: the amounts of the consecutive calls f s m1, f m1 m2, ..., f mk e added
+    up as integers ([None] if a call panics). [chain_ok s cuts e]: s <= m1 <= ... <= mk <= e. *)
+Fixpoint sum_claims (f : N -> N -> res N) (s : N) (cuts : list N) (e : N) : option N :=
+  match cuts with
+  | [] => match f s e with Ok x => Some x | _ => None end
+  | m :: r => match f s m, sum_claims f m r e with
+              | Ok x, Some y => Some (x + y)
+              | _, _ => None
+              end
+  end.
+
+Fixpoint chain_ok (s : N) (cuts : list N) (e : N) : Prop :=
+  match cuts with
+  | [] => s <= e
+  | m :: r => s <= m /\ chain_ok m r e
+  end.
+
+Lemma chain_ok_le cuts : forall s e, chain_ok s cuts e -> s <= e.
+Proof.
+  induction cuts as [|m r IH]; simpl; intros s e H; [exact H|].
+  destruct H as [H1 H2]. apply IH in H2. lia.
+Qed.
+
+Lemma holder_chain_additive net b cuts : forall s e,
+  b <= ont_total_supply -> chain_ok s cuts e -> e < w32 ->
+  exists z, calc_unbind_ong net b s e = Ok z /\
+            sum_claims (calc_unbind_ong net b) s cuts e = Some z /\ z < w64.
+Proof.
+  induction cuts as [|m r IH]; simpl; intros s e Hb Hc He.
+  - destruct (holder_additive net b s s e (N.le_refl s) Hc He) as (x & y & z & _ & _ & E3 & _ & Hw).
+    exists z. rewrite E3. destruct (Hw Hb) as [_ W]. auto.
+  - destruct Hc as [Hsm Hc]. pose proof (chain_ok_le _ _ _ Hc) as Hme.
+    destruct (holder_additive net b s m e Hsm Hme He) as (x & y & z & E1 & E2 & E3 & _ & Hw).
+    destruct (Hw Hb) as [Hsum W].
+    destruct (IH m e Hb Hc He) as (z' & E2' & S' & _).
+    rewrite E2 in E2'. injection E2' as <-.
+    exists z. rewrite E1, S'. split; [exact E3|]. split; [f_equal; exact Hsum|exact W].
+Qed.
+
+Lemma gov_chain_additive net cuts : forall s e,
+  chain_ok s cuts e -> e < w32 ->
+  exists z, calc_governance_unbind_ong net s e = Ok z /\
+            sum_claims (calc_governance_unbind_ong net) s cuts e = Some z /\ z < w64.
+Proof.
+  induction cuts as [|m r IH]; simpl; intros s e Hc He.
+  - destruct (gov_additive net s s e (N.le_refl s) Hc He) as (x & y & z & _ & _ & E3 & _ & W).
+    exists z. rewrite E3. auto.
+  - destruct Hc as [Hsm Hc]. pose proof (chain_ok_le _ _ _ Hc) as Hme.
+    destruct (gov_additive net s m e Hsm Hme He) as (x & y & z & E1 & E2 & E3 & Hsum & W).
+    destruct (IH m e Hc He) as (z' & E2' & S' & _).
+    rewrite E2 in E2'. injection E2' as <-.
+    exists z. rewrite E1, S'. split; [exact E3|]. split; [f_equal; exact Hsum|exact W].
+Qed.
